@@ -294,6 +294,10 @@ func findReference(msaIn io.Reader, referenceID string) (fastaio.EncodedFastaRec
 	for s.Scan() {
 		line = s.Bytes()
 
+		if len(line) == 0 {
+			continue
+		}
+
 		if first {
 
 			if line[0] != '>' {
